@@ -44,11 +44,13 @@ Lemma within_bounds_spec x b :
 Proof.
   rewrite within_bounds_outside, negb_true_iff. split.
   - intros Hout xi lo hi Hin.
-    split; apply Qnot_lt_le; intro Hlt;
-      (assert (outside x b = true) by (apply outside_spec; exists xi, lo, hi; auto); congruence).
+    split; apply Qnot_lt_le; intro Hlt.
+    + assert (E : outside x b = true) by (apply outside_spec; exists xi, lo, hi; auto). congruence.
+    + assert (E : outside x b = true) by (apply outside_spec; exists xi, lo, hi; auto). congruence.
   - intros Hall. destruct (outside x b) eqn:E; [|reflexivity].
-    apply outside_spec in E. destruct E as (xi & lo & hi & Hin & [H|H]);
-      destruct (Hall _ _ _ Hin) as [H1 H2]; exfalso; eauto using Qlt_not_le.
+    apply outside_spec in E. destruct E as (xi & lo & hi & Hin & H).
+    destruct (Hall _ _ _ Hin) as [H1 H2]. exfalso.
+    destruct H as [H|H]; [exact (Qlt_not_le _ _ H H1) | exact (Qlt_not_le _ _ H H2)].
 Qed.
 
 (** * [logpdf]: -inf exactly outside the bounds (or where the prior is -inf), else logcdf + logprior *)
@@ -238,8 +240,121 @@ Lemma ev_model_ok bs :
   ev_ok {| ec_batches := bs;
            ec_snaps := map (fun m => (rows_of m, n_evidence m)) (run_updates (@None (list erow)) bs) |} = true.
 Proof.
-  unfold ev_ok. simpl. destruct bs as [|b bs]; simpl; [reflexivity|].
-  change (@nil erow) with (@nil erow ++ []) at 1.
+  unfold ev_ok. cbn [ec_batches ec_snaps]. destruct bs as [|b bs]; [reflexivity|].
+  cbn [run_updates map ev_ok_from update rows_of].
   assert (P : prefix_then [] b b = true) by (simpl; apply all2_refl, erow_eqb_refl).
-  rewrite P. unfold n_evidence at 1. simpl. rewrite Nat.eqb_refl. simpl. apply ev_model_ok_from.
+  rewrite P. unfold n_evidence at 1. cbn [rows_of]. rewrite Nat.eqb_refl.
+  cbn [andb]. apply ev_model_ok_from.
+Qed.
+
+(** * soundness of the decidable posterior check *)
+
+Definition close_prop (a b : Q) : Prop := Qabs (a - b) <= tol * (1 + Qabs b).
+
+Lemma close_iff a b : close a b = true <-> close_prop a b.
+Proof. unfold close, close_prop. apply Qle_bool_iff. Qed.
+
+Definition some_outside (x : list Q) (b : list bound) : Prop :=
+  exists xi lo hi, In (xi, (lo, hi)) (combine x b) /\ (xi < lo \/ hi < xi).
+Definition all_inside (x : list Q) (b : list bound) : Prop :=
+  forall xi lo hi, In (xi, (lo, hi)) (combine x b) -> lo <= xi /\ xi <= hi.
+
+(** what [row_ok] means: outside -> -inf; inside -> logcdf + logprior (or -inf with the prior), and
+    the gradient is the chain-rule derivative phi/Phi(z) * dz/dx_j plus the prior's, within [tol] *)
+Definition row_prop (b : list bound) (t : Q) (r : row) (lp : obs) (g : list (option Q)) : Prop :=
+  (some_outside (r_x r) b -> lp = ONegInf)
+  /\ (all_inside (r_x r) b ->
+      match r_lprior r with
+      | NegInf => lp = ONegInf
+      | Fin p => exists q, lp = OFin q /\ close_prop q (o_logcdf (r_orc r) + p)
+      end
+      /\ Forall2 (fun m o => exists q, o = Some q /\ close_prop q m)
+           (map2 Qplus (map2 (spec_grad_coord t (r_orc r)) (o_gmean (r_orc r)) (o_gvar (r_orc r))) (r_gprior r)) g).
+
+Lemma all2_Forall2 {A B} (f : A -> B -> bool) (P : A -> B -> Prop) :
+  (forall a b, f a b = true -> P a b) -> forall l m, all2 f l m = true -> Forall2 P l m.
+Proof.
+  intros Hf. induction l as [|a l IH]; destruct m as [|b m]; simpl; try discriminate; [constructor|].
+  intro H. apply andb_true_iff in H. destruct H. constructor; auto.
+Qed.
+
+Lemma q_obs_close_prop m o : q_obs_close m o = true -> exists q, o = Some q /\ close_prop q m.
+Proof. destruct o as [q|]; simpl; [|discriminate]. intro H. exists q. split; [reflexivity|now apply close_iff]. Qed.
+
+Lemma row_ok_sound b t r lp g : row_ok b t r lp g = true -> row_prop b t r lp g.
+Proof.
+  unfold row_ok, row_prop, spec_logpdf. intro H. apply andb_true_iff in H. destruct H as [H1 H2].
+  destruct (outside (r_x r) b) eqn:E.
+  - split.
+    + intros _. destruct lp; simpl in H1; try discriminate; reflexivity.
+    + intro Hin. apply within_bounds_spec in Hin. rewrite within_bounds_outside, E in Hin. discriminate.
+  - split.
+    + intro Hout. apply outside_spec in Hout. unfold some_outside in Hout. congruence.
+    + intros _. split.
+      * destruct (r_lprior r) as [p|]; destruct lp; simpl in H1; try discriminate; auto.
+        exists q. split; [reflexivity|now apply close_iff].
+      * exact (all2_Forall2 _ _ q_obs_close_prop _ _ H2).
+Qed.
+
+Lemma rows_ok_sound b t rows lps gs :
+  rows_ok b t rows lps gs = true ->
+  length lps = length rows /\ length gs = length rows /\
+  forall i r lp g, nth_error rows i = Some r -> nth_error lps i = Some lp -> nth_error gs i = Some g ->
+                   row_prop b t r lp g.
+Proof.
+  revert lps gs. induction rows as [|r rows IH]; intros [|lp lps] [|g gs] H; simpl in H; try discriminate.
+  - split; [reflexivity|split; [reflexivity|]]. intros k r lp g Hk. destruct k; discriminate Hk.
+  - apply andb_true_iff in H. destruct H as [H1 H2]. destruct (IH _ _ H2) as (L1 & L2 & Hi).
+    simpl. split; [congruence|split; [congruence|]].
+    intros k r' lp' g' Hr Hl Hg. destruct k as [|k]; simpl in *.
+    + inversion Hr; inversion Hl; inversion Hg; subst. now apply row_ok_sound.
+    + eauto.
+Qed.
+
+(** * the model satisfies the decidable spec (exact oracles: sd * sd == var) *)
+
+Lemma close_Qeq a b : a == b -> close a b = true.
+Proof.
+  intro E. apply close_iff. unfold close_prop.
+  assert (Z : a - b == 0) by (rewrite E; ring). rewrite Z. simpl Qabs.
+  apply Qmult_le_0_compat; [discriminate|].
+  apply Qle_trans with (1 + 0); [discriminate|]. apply Qplus_le_r, Qabs_nonneg.
+Qed.
+
+Definition to_obs (e : ext) : obs := match e with Fin q => OFin q | NegInf => ONegInf end.
+
+Lemma grad_coord_is_spec t o gm gv :
+  o_var o == o_sd o * o_sd o -> ~ o_sd o == 0 ->
+  grad_coord t o gm gv == spec_grad_coord t o gm gv.
+Proof.
+  intros Hv Hs. unfold grad_coord, spec_grad_coord. cbv zeta. rewrite Hv. field. exact Hs.
+Qed.
+
+Lemma model_grad_ok t o gms gvs gps :
+  o_var o == o_sd o * o_sd o -> ~ o_sd o == 0 ->
+  all2 q_obs_close (map2 Qplus (map2 (spec_grad_coord t o) gms gvs) gps)
+       (map Some (map2 Qplus (map2 (grad_coord t o) gms gvs) gps)) = true.
+Proof.
+  intros Hv Hs. revert gvs gps. induction gms as [|gm gms IH]; intros [|gv gvs] gps; simpl; try reflexivity.
+  destruct gps as [|gp gps]; simpl; [reflexivity|].
+  rewrite IH, andb_true_r. apply close_Qeq. now rewrite (grad_coord_is_spec t o gm gv Hv Hs).
+Qed.
+
+Lemma row_model_ok b t r :
+  o_var (r_orc r) == o_sd (r_orc r) * o_sd (r_orc r) -> ~ o_sd (r_orc r) == 0 ->
+  row_ok b t r (to_obs (logpdf_row b r)) (map Some (gradpdf_row b t r)) = true.
+Proof.
+  intros Hv Hs. unfold row_ok. rewrite logpdf_row_is_spec. apply andb_true_iff. split.
+  - destruct (spec_logpdf b r); simpl; [|reflexivity]. apply close_Qeq. reflexivity.
+  - unfold gradpdf_row, gradlik_row. rewrite within_bounds_outside.
+    destruct (outside (r_x r) b); simpl; [reflexivity|]. now apply model_grad_ok.
+Qed.
+
+Lemma rows_model_ok b t rows :
+  Forall (fun r => o_var (r_orc r) == o_sd (r_orc r) * o_sd (r_orc r) /\ ~ o_sd (r_orc r) == 0) rows ->
+  rows_ok b t rows (map (fun r => to_obs (logpdf_row b r)) rows)
+          (map (fun r => map Some (gradpdf_row b t r)) rows) = true.
+Proof.
+  induction 1 as [|r rows [Hv Hs] _ IH]; simpl; [reflexivity|].
+  now rewrite row_model_ok, IH.
 Qed.
